@@ -160,6 +160,16 @@ func firstRepoLoc(where string) string {
 	return ""
 }
 
+func (w *Worker) reportRaceKind(m *Machine, kind, key, msg string) {
+	ex := w.ex
+	ex.mu.Lock()
+	defer ex.mu.Unlock()
+	ex.violCount[kind+"|"+key]++
+	if _, ok := ex.races[kind+key]; !ok {
+		ex.races[kind+key] = &Violation{Kind: kind, ID: key, Msg: msg, Trail: append([]int{}, m.trail[:m.pos]...), Model: m.model, Harness: m.harness, Key: key}
+	}
+}
+
 func (w *Worker) reportRace(m *Machine, key, msg string) {
 	ex := w.ex
 	ex.mu.Lock()
